@@ -43,6 +43,8 @@ pub fn for_each_tagged(path: &str, tag: &str, mut f: impl FnMut(serde_json::Valu
                 match serde_json::from_str::<serde_json::Value>(&js) {
                     Ok(v) => {
                         n += 1;
+                        // should the code under test kill the process on this vector, the check names it
+                        crate::crumb_text("vector", &js);
                         f(v)
                     }
                     Err(e) => {
